@@ -19,7 +19,10 @@ LEVEL = "model_checking"
 
 
 def le8(v):
-    return list(v.to_bytes(8, "little"))
+    try:
+        return list(int(v).to_bytes(8, "little"))
+    except (OverflowError, ValueError, TypeError):
+        return [256] * 8  # not a 64-bit value: can never equal a stored value
 
 
 def _w_num(ai, v):
@@ -87,7 +90,7 @@ def run(tier, rep, ev):
             rep.violation("write_boolean-nonconforming", f"write_boolean(n={len(bits)}, alldef={c['alldef']}) -> {bytes(enc).hex()}",
                           {"op": "wbool", "bits": c["bits"], "alldef": c["alldef"], "enc": enc})
         for e in c["encs"]:
-            buf = io.BytesIO(bytes(e))
+            buf = io.BytesIO(bytes(e) + b"\xA5\x5A")  # sentinel: the vector must not swallow what follows it
             try:
                 got = ai.read_boolean(buf, len(bits), checkall=c["alldef"])
             except Exception as ex:
@@ -142,9 +145,10 @@ def run(tier, rep, ev):
                 b = io.BytesIO()
                 ai.write_boolean(b, bits, all_defined=alldef)
                 enc = list(b.getvalue())
-                got = ai.read_boolean(io.BytesIO(bytes(enc)), n, checkall=alldef)
+                rb = io.BytesIO(bytes(enc) + b"\xA5\x5A")
+                got = ai.read_boolean(rb, n, checkall=alldef)
                 cur.append({"e": "wbool", "bits": [int(x) for x in bits], "alldef": alldef, "enc": enc})
-                cur.append({"e": "rbool", "enc": enc, "count": n, "checkall": alldef, "dec": [int(x) for x in got]})
+                cur.append({"e": "rbool", "enc": enc, "count": n, "checkall": alldef, "dec": [int(x) for x in got], "used": rb.tell()})
                 ev.case(("tb", n, rep_i, alldef), nontrivial=n > 0)
     traces.append(cur)
     # names
@@ -229,7 +233,7 @@ def _header_roundtrips(py7zr, ai, R, tier, ev):
     attrs = [0, 0x20, 0x10, 0x8000 | (0o100644 << 16), 0xFFFFFFFF, 0x80000000, 0x20 | 0x400 | 0x8000 | (0o120777 << 16)]
     ncase = 60 if tier == "quick" else 600
     for ci in range(ncase):
-        nfiles = R.choice([1, 2, 3, 7, 8, 9, 16, 17])
+        nfiles = R.choice([1, 2, 3, 7, 8, 9, 16, 17, 24, 64, 65])
         nstream = R.randrange(1, nfiles + 1)
         h = ai.Header.build_header([{"id": py7zr.FILTER_COPY}], None)
         h.initialize()
@@ -261,6 +265,10 @@ def _header_roundtrips(py7zr, ai, R, tier, ev):
                            for _ in range(R.choice([1, 2, 5, 40]))).replace("\\", "_")
             f = {"filename": name + str(i), "emptystream": es, "lastwritetime": ArchiveTimestamp(R.choice(times)),
                  "attributes": R.choice(attrs)}
+            if ci % 3 == 1 and R.random() < 0.4:
+                f["lastwritetime"] = None      # undefined entries must stay undefined
+            if ci % 3 == 2 and R.random() < 0.4:
+                f["attributes"] = None
             if not es:
                 si += 1
             files.append(f)
@@ -287,23 +295,29 @@ def _header_roundtrips(py7zr, ai, R, tier, ev):
             except Exception as ex:
                 traces.append([{"e": "raised", "what": f"header roundtrip encoded={encoded}: {ex!r}"}])
                 continue
-            evs = []
-            ms2 = h2.main_streams
+            try:
+                evs = []
+                ms2 = h2.main_streams
 
-            def fld(kind, a, b):
-                evs.append({"e": "field", "kind": kind, "stored": a, "loaded": b})
+                def fld(kind, a, b):
+                    evs.append({"e": "field", "kind": kind, "stored": a, "loaded": b})
 
-            fld("packsizes", [le8(x) for x in ms.packinfo.packsizes], [le8(x) for x in ms2.packinfo.packsizes])
-            fld("packcrc", [le8(x) for x in ms.packinfo.crcs], [le8(x) for x in ms2.packinfo.crcs])
-            fld("unpacksizes", [le8(x) for x in sizes], [le8(x) for x in (ms2.substreamsinfo.unpacksizes or [f.get_unpack_size() for f in ms2.unpackinfo.folders])])
-            fld("folderunpack", [le8(total)], [le8(x) for x in ms2.unpackinfo.folders[0].unpacksizes])
-            fld("digests", [le8(x) for x in crcs], [le8(x) for x in ms2.substreamsinfo.digests])
-            fld("numfiles", [len(files)], [len(h2.files_info.files)])
-            for a, b in zip(files, h2.files_info.files):
-                fld("name", [ord(c) for c in a["filename"]], [ord(c) for c in b.get("filename", "")])
-                fld("mtime", le8(int(a["lastwritetime"])), le8(int(b["lastwritetime"])) if b.get("lastwritetime") is not None else ["U"])
-                fld("attr", le8(a["attributes"]), le8(b["attributes"]) if b.get("attributes") is not None else ["U"])
-                fld("emptystream", [int(a["emptystream"])], [int(b["emptystream"])])
+                fld("packsizes", [le8(x) for x in ms.packinfo.packsizes], [le8(x) for x in ms2.packinfo.packsizes])
+                fld("packcrc", [le8(x) for x in ms.packinfo.crcs], [le8(x) for x in ms2.packinfo.crcs])
+                fld("unpacksizes", [le8(x) for x in sizes], [le8(x) for x in (ms2.substreamsinfo.unpacksizes or [f.get_unpack_size() for f in ms2.unpackinfo.folders])])
+                fld("folderunpack", [le8(total)], [le8(x) for x in ms2.unpackinfo.folders[0].unpacksizes])
+                fld("digests", [le8(x) for x in crcs], [le8(x) for x in ms2.substreamsinfo.digests])
+                fld("numfiles", [len(files)], [len(h2.files_info.files)])
+                for a, b in zip(files, h2.files_info.files):
+                    fld("name", [ord(c) for c in a["filename"]], [ord(c) for c in b.get("filename", "")])
+                    fld("mtime", le8(int(a["lastwritetime"])) if a["lastwritetime"] is not None else ["U"],
+                        le8(int(b["lastwritetime"])) if b.get("lastwritetime") is not None else ["U"])
+                    fld("attr", le8(a["attributes"]) if a["attributes"] is not None else ["U"],
+                        le8(b["attributes"]) if b.get("attributes") is not None else ["U"])
+                    fld("emptystream", [int(a["emptystream"])], [int(b["emptystream"])])
+            except Exception as ex:  # noqa  (a header that does not even have the sections back)
+                traces.append([{"e": "raised", "what": f"header roundtrip compare encoded={encoded}: {ex!r}"}])
+                continue
             traces.append(evs)
             ev.case(("hdr", ci, encoded))
     return traces
